@@ -346,6 +346,8 @@ class Evaluator:
                     pass
         if isinstance(node, ast.Attribute):
             d = dotted(node)
+            if d in ("io.SEEK_SET", "io.SEEK_CUR", "io.SEEK_END", "os.SEEK_SET", "os.SEEK_CUR", "os.SEEK_END") and d.split(".")[0] not in self.env:
+                return Term.atom(d.split(".")[1])  # the same constant however it is imported
             if d is not None:
                 if d in self.env:
                     return T(self.env[d])
